@@ -105,7 +105,7 @@ def e_adc(c):
 @st.composite
 def s_si(draw):
     kind = draw(st.sampled_from(["int", "int", "quantised", "continuous", "plateaus"]))
-    N = draw(st.one_of(st.integers(2, 60), st.integers(60, 3000)))
+    N = draw(st.one_of(st.integers(2, 60), st.integers(60, 3000), st.sampled_from([10000, 30000, 100000])))
     p = draw(st.one_of(st.sampled_from([50.0, 10.0, 25.0, 30.0, 75.0, 90.0, 99.0, 99.99, 1.0, 33.0]), st.floats(0.01, 99.99)))
     return {"kind": kind, "N": N, "p": p, "seed": draw(st.integers(0, 2 ** 31 - 1)), "levels": draw(st.integers(2, 12)),
             "lit": draw(st.one_of(st.none(), st.lists(st.integers(0, 30), min_size=2, max_size=12)))}
